@@ -376,6 +376,42 @@ def fmt_cases(seed, tier, consts):
                 cs.append(c)
     return cs
 
+def wfmt_cases(seed, tier, consts):
+    """wide formatted output into a buffer (swprintf_s, snwprintf_s, vswprintf_s, vsnwprintf_s): every length relation between
+    the text and dmax, an argument that the C library cannot convert after some text was produced (locale C.UTF-8),
+    and -- cases whose id ends in 'k' -- the same call with its first allocation request failing"""
+    rng = random.Random(seed * 19 + 7); cs = []; i = 0
+    W = lambda t: fam_copy.enc([ord(ch) for ch in t] + [0], 4)
+    texts = [('%d', [1234567], 7, True), ('ab%lscd', [('W', [0x78, 0xe9, 0x20ac])], 7, True), ('%s!', [b'hey'], 4, True), ('plain', [], 5, True), ('%5d|', [42], 6, True),
+             ('abc%sdef', [b'\xff\xfe'], 8, False), ('%ls', [('W', [])], 0, True), ('x%600d', [7], 601, True)]
+    for fmt, args, tl, valid in texts:
+        for func in ('swprintf_s', 'snwprintf_s', 'vswprintf_s', 'vsnwprintf_s'):
+            dms = sorted(set(d for d in list(range(1, min(tl, 12) + 3)) + [tl - 1, tl, tl + 1, tl + 2, 520, 600] if d >= 1))
+            for dmax in dms:
+                for k in (None, 1):
+                    i += 1
+                    blocks = [('R', fam_copy.garbage(rng, 4 * dmax)), ('R', W(fmt))]; cargs = []
+                    for a in args:
+                        if isinstance(a, bytes): blocks.append(('R', a + b'\0')); cargs.append((len(blocks) - 1, 0))
+                        elif isinstance(a, tuple): blocks.append(('R', fam_copy.enc(a[1] + [0], 4))); cargs.append((len(blocks) - 1, 0))
+                        else: cargs.append(a)
+                    full = [(0, 0), dmax, UNK, (1, 0), 'V'] + cargs + (['K%d' % k] if k else [])
+                    truncating = func in ('snwprintf_s', 'vsnwprintf_s')
+                    c = vlib.Case('h%d%s' % (i, 'k' if k else ''), func, blocks, full,
+                                  dict(cls='sweep-wfmt', func=func, fmt=fmt, textlen=tl, valid=valid, noop=False, allocfail=bool(k),
+                                       gd=gd(0, 0, dmax, 4, producer=True, slack=True, fail='neg', copylike=True)))
+                    cs.append(c)
+    return cs
+
+def allocfail_variants(cases):
+    """the same cases with the first allocation request of the call failing (a failed allocation is one more exit of the call)"""
+    out = []
+    for c in cases:
+        if any(isinstance(a, str) and a.startswith('K') for a in c.args): continue
+        m = dict(c.meta); m['allocfail'] = True
+        out.append(vlib.Case(c.id + 'k', c.func, c.blocks, list(c.args) + ['K1'], m))
+    return out
+
 # ------------------------------------------------------------------ known findings of the sweep (predicates over the input)
 @known.pred
 def kf_sweep(case, o, kind, cfg, consts):
@@ -399,6 +435,13 @@ def kf_sweep_wcsrtombs_noslack(case, o, kind, cfg, consts):
     if consts['null_slack'] or m.get('op') != 'wcsrtombs' or kind not in ('unterminated', 'no-terminator') or o.ret != '0': return False
     nb = len(''.join(chr(c) for c in m['chars']).encode('utf-8'))
     return m['len'] <= nb
+
+@known.pred
+def kf_sweep_wprintf_allocfail(case, o, kind, cfg, consts):
+    # wide sprintf family, dmax >= 512, the probe allocation failing: crash, or -ESNOSPC without clearing / reporting (the C20 finding, seen from C01/C03/C04/C05)
+    m = case.meta
+    # (the probe runs whenever the first vswprintf fails: text too long, or an argument the C library cannot convert)
+    return m.get('cls') == 'sweep-wfmt' and m.get('allocfail') and m['gd']['dmax'] >= 512 and o.alloc is not None and o.alloc[2] >= 1
 
 @known.pred
 def kf_sweep_noslack_partial(case, o, kind, cfg, consts):
